@@ -196,6 +196,7 @@ class Context:
         self.nonzero_known = set()
         self.nonneg_known = set()
         self.n_decisions = 0
+        self.unknown_branches = 0
         self.notes = []
         self.expected_raise = None
         self.monitors = []
@@ -394,6 +395,9 @@ class Context:
         if self.pos < len(self.log):
             dec = self.log[self.pos]
             self.pos += 1
+            if isinstance(dec, tuple):          # ('u', decision): feasibility was undecided
+                self.unknown_branches += 1
+                dec = dec[1]
             self._assert(f if dec else f.negate())
             return dec
         maxd = self.opts.get('max_decisions', 4000)
@@ -402,16 +406,20 @@ class Context:
             raise PathAbort('decision limit')
         nf = f.negate()
         vt, _ = self.check(f)
+        unsure = vt == 'unknown'
         if vt == 'unsat':
             dec = False
         else:
             vf, _ = self.check(nf)
+            unsure = unsure or vf == 'unknown'
             if vf == 'unsat':
                 dec = True
             else:
                 dec = True
-                self.alternatives.append(self.log[:self.pos] + [False])
-        self.log.append(dec)
+                self.alternatives.append(self.log[:self.pos] + [('u', False) if unsure else False])
+        if unsure:
+            self.unknown_branches += 1
+        self.log.append(('u', dec) if unsure else dec)
         self.pos += 1
         self._assert(f if dec else nf)
         return dec
@@ -820,7 +828,10 @@ class ConcreteContext:
             self.values[name] = Fraction((i * 7) % 11 + 1, (i % 3) + 2)
         if name not in self.input_order:
             self.input_order.append(name)
-        return float(self.values[name])
+        v = self.values[name]
+        if v != 0 and not (Fraction(1, 2 ** 1000) < abs(v) < 2 ** 1000):
+            raise ConcreteSkip(f'input {name} outside the float64 range')
+        return float(v)
 
     def integer(self, name):
         if name not in self.values:
